@@ -15,7 +15,7 @@ driver: coq
 $(BUILD)/driver: coq/model.ml $(wildcard ocaml/*.ml)
 	mkdir -p $(BUILD)/ocaml
 	cp coq/model.ml coq/model.mli ocaml/*.ml $(BUILD)/ocaml/
-	cd $(BUILD)/ocaml && ocamlfind ocamlopt -w -a model.mli model.ml drv_core.ml $(sort $(notdir $(wildcard ocaml/cmd_*.ml))) driver.ml -o ../driver
+	cd $(BUILD)/ocaml && rm -f *.cmi *.cmx *.o && ocamlfind ocamlopt -w -a model.mli model.ml drv_core.ml cmd_scene.ml $(filter-out cmd_scene.ml,$(sort $(notdir $(wildcard ocaml/cmd_*.ml)))) driver.ml -o ../driver
 
 clean:
 	-cd coq && [ -f Makefile.coq ] && $(MAKE) -f Makefile.coq clean
